@@ -50,7 +50,7 @@ def unsupported_value(kind):
             "bean": beans.Plain()}[kind]
 
 
-HANDLER_TABLES = ["none", "user", "date", "tuple", "str", "bool", "user+date", "other", "list", "dict", "int", "mylist"]
+HANDLER_TABLES = ["none", "user", "date", "tuple", "str", "bool", "user+date", "other", "list", "dict", "int", "mylist", "float"]
 
 
 class Recorder(object):
@@ -65,8 +65,8 @@ class Recorder(object):
 
 
 def token(obj):
-    if isinstance(obj, (str, bool, tuple, datetime.date)):
-        return repr(obj)
+    if isinstance(obj, (str, bool, tuple, datetime.date, float)):
+        return repr(obj) if not isinstance(obj, tuple) or len(obj) < 20 else "tuple-of-%d" % len(obj)
     return "obj-%d" % id(obj)
 
 
@@ -189,6 +189,11 @@ def build_case(case):
         setattr(o, real[0], gen.MyList([1, ("x", gen.MyList())]))
         if len(real) > 1:
             setattr(o, real[1], gen.OrderedDict([("k", (1,)), ("m", gen.MyStr("s"))]))
+    elif unsup == "wide":
+        # long sequences of scalars (beyond any small bound): handlers for scalar types apply to every item
+        setattr(o, real[0], ["s%d" % i for i in range(600)] + [True])
+        if len(real) > 1:
+            setattr(o, real[1], tuple(float(i) for i in range(1030)))
     elif unsup is not None and not hasattr(cls, "__slots__"):
         o.extra_field = unsupported_value(unsup)
         extra_field = "extra_field"
@@ -230,6 +235,8 @@ def run_case(case):
         add(int, "int")
     if table == "mylist":
         add(gen.MyList, "mylist")
+    if table == "float":
+        add(float, "float")
     cfg_kwargs = {}
     call_kwargs = {}
     ign_attr = "_ignore"
@@ -317,6 +324,9 @@ def cases(tier):
         for table in ("none", "list", "dict", "int", "mylist", "tuple", "str"):
             for ctx in CONTEXTS:
                 yield (si, (), (), table, ctx, "defaults", "subtypes")
+        for table in ("none", "str", "float", "bool", "tuple"):
+            for ctx in ("top", "list", "bean-dict"):
+                yield (si, (), (), table, ctx, "defaults", "wide")
 
 
 # -- serialisation method name ------------------------------------------------------------
@@ -363,6 +373,138 @@ def check_rpc_ser(case):
     if node.get("__jsonclass__", [None, None])[1:] != [[1, "two", [3]]] or node.get("extra") != "E":
         out.bad("C20/rpc/configured-serialisation-method-not-used", "%r: result dumped as %r, expected the configured method's constructor args" % (case, node))
     return out
+
+
+# -- every client entry point that marshals parameters, and server configuration changed between requests ---------------
+
+
+def entry_cases(tier):
+    for entry in ("call", "notify", "multicall", "multicall-notify", "multicall-mixed"):
+        for version in (2.0, 1.0):
+            for what in ("method-name", "handler", "ignore"):
+                yield ("client", entry, version, what)
+    for first in ("none", "1.0", "2.0", "batch"):
+        for change in ("add-handler", "rename-ignore", "replace-config"):
+            for form in ("1.0", "2.0"):
+                yield ("server", first, change, form)
+
+
+def check_entry(case):
+    import json
+
+    import jsonrpclib
+    from jsonrpclib.SimpleJSONRPCServer import SimpleJSONRPCDispatcher
+    from mc.loop import _Base
+
+    side, a, b, c = case
+    out = Out(cls="entry/%s/%s" % (side, a))
+    spec = ("dict", (("a",),), "custom-list", "none")
+    cls, fields, modname = classgen.build(spec)
+    rec = Recorder()
+
+    def obj():
+        o = cls(1, "two", [3])
+        o.extra = "E"
+        return o
+
+    def judge(node_holder, what, where):
+        if what == "method-name":
+            node = find_bean(node_holder, cls.__name__)
+            if node is None or node.get("__jsonclass__", [None, None])[1:] != [[1, "two", [3]]]:
+                out.bad("C20/%s/configured-serialisation-method-not-used" % side, "%r: %s marshalled as %r" % (case, where, node_holder))
+        elif what == "handler":
+            if "__handled__" not in json.dumps(node_holder):
+                out.bad("C20/%s/handler-not-used" % side, "%r: %s marshalled as %r, the configured handler was not used" % (case, where, node_holder))
+        else:
+            node = find_bean(node_holder, "Plain")
+            if node is None or "hidden" in node or "shown" not in node:
+                out.bad("C20/%s/ignored-attribute-appears" % side, "%r: %s marshalled as %r" % (case, where, node_holder))
+
+    def value(what):
+        if what == "method-name":
+            return obj()
+        if what == "handler":
+            return [datetime.date(2020, 1, 2)]
+        p = beans.Plain()
+        p.shown, p.hidden, p.skipThese = 1, 2, ["hidden"]
+        return p
+
+    def config(what, version):
+        if what == "method-name":
+            return Config(version=version, serialize_method="toJson")
+        if what == "handler":
+            return Config(version=version, serialize_handlers={datetime.date: rec.handler("date")})
+        return Config(version=version, ignore_attribute="skipThese")
+
+    if side == "client":
+        class Rec(_Base):
+            def request(self, host, handler, request_body, verbose=0):
+                self.sent.append(request_body)
+                return ""
+        t = Rec()
+        cfg = config(c, b)
+        v = value(c)
+        try:
+            proxy = jsonrpclib.ServerProxy("http://h/", transport=t, config=cfg, version=b)
+            if a == "call":
+                try:
+                    proxy.m(v)
+                except Exception:
+                    pass  # the canned empty reply is not a result
+            elif a == "notify":
+                proxy._notify.m(v)
+            else:
+                mc = jsonrpclib.MultiCall(proxy, config=cfg)
+                if a in ("multicall", "multicall-mixed"):
+                    mc.m(v)
+                if a in ("multicall-notify", "multicall-mixed"):
+                    mc._notify.n(v)
+                try:
+                    mc()
+                except Exception:
+                    pass
+        except Exception as ex:
+            return out.bad("C20/client/raises-%s" % type(ex).__name__, "%r raised %r" % (case, ex))
+        if not t.sent:
+            return out.bad("C20/client/nothing-sent", "%r" % (case,))
+        sent = json.loads(t.sent[-1] if isinstance(t.sent[-1], str) else t.sent[-1].decode("utf-8"))
+        for e in (sent if isinstance(sent, list) else [sent]):
+            judge(e.get("params"), c, "parameter of %s" % e.get("method"))
+        return out
+    # server: the configuration in force when a request is served is the one honoured, whatever was served before
+    first, change, form = a, b, c
+    cfg = Config(version=2.0)
+    d = SimpleJSONRPCDispatcher(config=cfg)
+    what = {"add-handler": "handler", "rename-ignore": "ignore", "replace-config": "method-name"}[change]
+    d.register_function(lambda: value(what), "give")
+    d.register_function(lambda: 1, "one")
+
+    def req(form_, rid):
+        r = {"method": "give", "params": [], "id": rid}
+        if form_ == "2.0":
+            r["jsonrpc"] = "2.0"
+        return r
+    try:
+        if first == "batch":
+            d._marshaled_dispatch(json.dumps([req("1.0", 1), req("2.0", 2)]))
+        elif first != "none":
+            d._marshaled_dispatch(json.dumps(dict(req(first, 1), method="one")))
+            d._marshaled_dispatch(json.dumps(req(first, 2)))
+        if change == "add-handler":
+            cfg.serialize_handlers[datetime.date] = rec.handler("date")
+        elif change == "rename-ignore":
+            cfg.ignore_attribute = "skipThese"
+        else:
+            d.json_config = Config(version=2.0, serialize_method="toJson")
+        reply = json.loads(d._marshaled_dispatch(json.dumps(req(form, 3))))
+    except Exception as ex:
+        return out.bad("C20/server/raises-%s" % type(ex).__name__, "%r raised %r" % (case, ex))
+    judge(reply.get("result"), what, "result of a %s request after %s" % (form, change))
+    return out
+
+
+def leg_entry(part, tier, shard, nshards):
+    drive(part, "entry-points", entry_cases(tier), shard, nshards, check_entry)
 
 
 def ser_cases(tier):
@@ -494,12 +636,14 @@ def leg_rpc_ser(part, tier, shard, nshards):
     drive(part, "rpc-method-name", rpc_ser_cases(tier), shard, nshards, check_rpc_ser)
 
 
-LEGS = {"customisation": leg_custom, "method-name": leg_ser, "rpc-method-name": leg_rpc_ser, "config-history": leg_history}
+LEGS = {"entry-points": leg_entry, "customisation": leg_custom, "method-name": leg_ser, "rpc-method-name": leg_rpc_ser, "config-history": leg_history}
 
 META = {
     "technique": "bounded-exhaustive enumeration of generated classes, ignore lists, handler tables, contexts and configured names against a reference walk "
     "of the expected dump output",
-    "rule": "8 generated class hierarchies (dict/slots/mixed storage, public/protected/mangled fields) x every pair of subsets of the field names as "
+    "rule": "entry-points: {ServerProxy call, notification, MultiCall job, MultiCall notification, mixed batch} x versions x {configured serialisation-method name, "
+    "handler, ignore-attribute name} observed in the request text; server: {no, 1.0, 2.0, batch} earlier requests x configuration change {handler added, ignore "
+    "attribute renamed, Config replaced} x request form, the result must follow the configuration in force; 8 generated class hierarchies (dict/slots/mixed storage, public/protected/mangled fields) x every pair of subsets of the field names as "
     "per-object and per-call ignore lists x 6 contexts; x 7 handler tables (user class, date, tuple, str, bool, user+date, unrelated class) x contexts x "
     "{default names, names from Config, per-call names overriding Config} with decoy attributes under the names that must not be consulted; x 6 unsupported "
     "field value kinds; serialisation-method naming variants x contexts; config-history: every sequence of <=4 (thorough <=5) events over {dump, add/remove a "
@@ -514,6 +658,8 @@ META = {
 
 def replay(case):
     c = eval(case["case"], {"__builtins__": {}}, {})
+    if case["leg"] == "entry-points":
+        return check_entry(c).viols
     if case["leg"] == "method-name":
         return check_ser(c).viols
     if case["leg"] == "rpc-method-name":
